@@ -9,7 +9,7 @@ import numpy as np
 from ..common import run_driver, seed_rng
 from ..qnum import installed
 from ..sllib import TIME_LATTICE, Fixture, random_space_intervals, result_str
-from ..slchecks import RealOps, describe, make_curve, ok_aspect
+from ..slchecks import RealOps, describe, make_curve, ok_aspect, seam_and_corner_pairs, StubElem
 from .C04 import translate  # noqa: F401
 
 PROP_MODS = ['Stbem.Props.C12']
@@ -157,4 +157,29 @@ def search(res, tier, boost=False):
                     if err > 1e-7:
                         res.violation('C12:not-invariant:%s' % name.split()[0], dict(curve=cname, pw_exact=pw, move=name, test=describe(te), trial=describe(tr),
                                       base=float(base), moved=float(moved), scaled_error=err))
+    # graded configurations: pairs touching through the seam / at a corner / nested with unequal sizes, moved by a
+    # quarter turn and by the reflection x -> L - x; elements are dyadic sub-intervals of pieces whose end points are
+    # computed by the mesh's own bisection arithmetic (bit-identical shared end points)
+    from ..slchecks import addr_interval, move_addr
+    for cname in ('UnitSquare', 'PiSquare', 'Circle'):
+        gamma, mesh = uniform_mesh(cname, 0)
+        ops = RealOps(gamma, mesh)
+        for te, tr, kind in seam_and_corner_pairs(rng, gamma, n_pairs * 2):
+            if te.time_interval[1] <= tr.time_interval[0] or not (ok_aspect(te) and ok_aspect(tr)):
+                continue
+            base = ops.SL[False].bilform(tr, te)
+            sc = ops.scale(te, tr)
+            for name in ('rotate', 'reflect'):
+                At, Ar = move_addr(gamma, te.addr, name), move_addr(gamma, tr.addr, name)
+                if At is None or Ar is None:
+                    continue
+                te2 = StubElem(te.time_interval, addr_interval(gamma, At), gamma.pw_gamma[At[0]])
+                tr2 = StubElem(tr.time_interval, addr_interval(gamma, Ar), gamma.pw_gamma[Ar[0]])
+                moved = ops.SL[False].bilform(tr2, te2)
+                err = abs(moved - base) / sc
+                worst = max(worst, err)
+                res.count(('move-graded', cname, kind, repr(te), repr(tr), name), True)
+                if err > 1e-7:
+                    res.violation('C12:not-invariant:%s:graded-%s' % (name, kind), dict(curve=cname, move=name, test=describe(te), trial=describe(tr),
+                                  moved_test=describe(te2), moved_trial=describe(tr2), base=float(base), moved=float(moved), scaled_error=err))
     res.notes['worst_scaled_error'] = worst
